@@ -1,6 +1,6 @@
 (** * C16 — what IS rejected: zero and non-positive sizes; and where decoding cannot panic *)
 From Coq Require Import ZArith QArith String Ascii List Bool Lia Lqa.
-From Texel Require Import Tms.Json Tms.Model Tms.ProofsC15 Tms.ProofsC16b Tms.ProofsC16c.
+From Texel Require Import Tms.Json Tms.Model Tms.ProofsC15 Tms.ProofsC16b Tms.ProofsC16c Tms.F64Facts.
 From Texel.Gen Require Import ConstsGen TmsData.
 Import ListNotations.
 Open Scope string_scope.
@@ -326,4 +326,26 @@ Proof.
   destruct (decodeTMs_no_panic l [] PS) as [M1 M2].
   destruct (decodeTMs l []) as [ms| | |]; cbn [bind]; try (split; discriminate); try contradiction.
   match goal with |- no_panic (if ?c then _ else _) => destruct c end; split; discriminate.
+Qed.
+
+
+(** ** corollaries stated in Properties/C16.v *)
+Theorem decode_encode_decode_small_lemma : forall j t, decodeTMS j = Ok t -> tms_small t ->
+  decodeTMS (encodeTMS t) = Ok (norm_tms t).
+Proof. intros j t H S. exact (decode_encode_decode_lemma j t H (tms_small_stable t S)). Qed.
+
+Theorem encode_stable_lemma : forall j t, decodeTMS j = Ok t -> tms_stable t ->
+  exists t', decodeTMS (encodeTMS t) = Ok t' /\ encodeTMS t' = encodeTMS t.
+Proof.
+  intros j t H S. exists (norm_tms t). split; [exact (decode_encode_decode_lemma j t H S)|exact (encode_norm t)].
+Qed.
+
+Theorem normal_form_fixed_lemma : forall t, norm_tms (norm_tms t) = norm_tms t /\ encodeTMS (norm_tms t) = encodeTMS t.
+Proof. intros t. split; [exact (norm_idem t)|exact (encode_norm t)]. Qed.
+
+Theorem builtin_stable_thm : forall name doc, In (name, doc) gen_tms_documents ->
+  exists t, decodeTMS doc = Ok t /\ tms_stable t.
+Proof.
+  intros name doc HI. assert (H := builtin_stable_lemma). rewrite forallb_forall in H. specialize (H _ HI). cbn [snd] in H.
+  destruct (decodeTMS doc) as [t| | |]; try discriminate. exists t. split; [reflexivity|apply tms_stableb_spec; exact H].
 Qed.
